@@ -36,6 +36,19 @@ Definition value_of (inst : option string) (params : dict Q) (e : pexpr) : Q :=
 Definition resolve_event (inst : option string) (params : dict Q) (names : list string) (k : nat) (e : levent) : sevent :=
   {| se_locus := index_of (decorated_name inst (le_stem e)) names; se_p := value_of inst params (le_p e);
      se_prog := k; se_name := le_name e |}.
+(* events that a process adds to its per-element distribution at run time (SIR_VariableInfection: one
+   per S-I edge, on a one-element locus, with the edge's infectivity): leaf -> (name, probability) *)
+Definition extras := list (nat * list (string * Q)).
+Definition extra_events (one : nat) (ex : extras) (id : nat) : list sevent :=
+  match find (fun x => Nat.eqb (fst x) id) ex with
+  | None => []
+  | Some x => map (fun nr => {| se_locus := one; se_p := snd nr; se_prog := 0; se_name := fst nr |}) (snd x)
+  end.
+Definition resolve_ex (params : dict Q) (names : list string) (one : nat) (ex : extras) (l : lleaf) : procdesc :=
+  {| pd_id := lf_id l; pd_inst := lf_inst l;
+     pd_elem := map (resolve_event (lf_inst l) params names 0) (lf_elem l) ++ extra_events one ex (lf_id l);
+     pd_fixed := map (resolve_event (lf_inst l) params names 0) (lf_fixed l);
+     pd_loci := lf_stems l; pd_maxtime := lf_maxtime l; pd_always := lf_always l |}.
 Definition resolve (params : dict Q) (names : list string) (l : lleaf) : procdesc :=
   {| pd_id := lf_id l; pd_inst := lf_inst l;
      pd_elem := map (resolve_event (lf_inst l) params names 0) (lf_elem l);
@@ -53,7 +66,7 @@ Fixpoint first_missing (params : dict Q) (ls : list lleaf) : option string :=
       end
   end.
 
-Record snap := { sn_sizes : list nat; sn_dist : list (nat * string * Q) }.
+Record snap := { sn_sizes : list nat; sn_extra : extras; sn_dist : list (nat * string * Q) }.
 Record lookup_obs := { lo_leaf : nat; lo_key : string; lo_default : option Q; lo_result : option Q }.
 Record getparams_obs := { gp_leaf : nat; gp_keys : list (string * option Q); gp_result : list Q + string }.
 Record setparams_obs := { sp_inst : option string; sp_before : dict Q; sp_kvs : dict Q; sp_after : dict Q }.
@@ -141,7 +154,9 @@ Definition check_case (c : case_t) : bool :=
           && list_eqb (fun a b => String.eqb (fst a) (fst b) && Nat.eqb (snd a) (snd b)) reg (o_loci c)
           && forallb (fun s => list_eqb dist_eqb
                                  (map (fun x => (nth (fst (fst x)) ids 4999, snd (fst x), snd x))
-                                      (event_rate_distribution t (sn_sizes s)))
+                                      (event_rate_distribution
+                                         (tmap (resolve_ex (c_params c) (map fst reg) (List.length (sn_sizes s)) (sn_extra s)) (c_tree c))
+                                         (sn_sizes s ++ [1])))
                                  (sn_dist s)) (o_snaps c)
           && forallb (event_within leaves) (o_events c)
           && (negb (o_complete c) || list_eqb (kv_eqb Z.eqb) (results res t) (o_results c))
